@@ -9,6 +9,8 @@ CONSTANTS
   HandlerSeqs <- QA_HSeqs
   UpProgs <- QA_UpProgs
   CRProg <- QA_CR
+  Forms = {"fresh"}
+  Colls = {}
   QuitOn = FALSE
   QuitDeferred = FALSE
   DefCap = 0
